@@ -57,7 +57,14 @@ def main(argv=None):
             res.stats['unroll'] = _paths.DEFAULT_UNROLL
             res.stats['bytecode_crosscheck'] = bytecheck.crosscheck(Project(args.repo, normalise=False))
             _paths.DEFAULT_UNROLL = 2          # the variant matrix runs at the quick-tier bound
-            selftest.run(prop, args.repo, seed, res)
+            try:
+                selftest.run(prop, args.repo, seed, res)
+            except AnalysisError as e:
+                # a violation found on the tree itself is reported as such (exit 1) even when the self-test of the checker also complains
+                if report.has_new_findings(res):
+                    print(f'ANALYSIS-NOTE property={prop} {e}')
+                else:
+                    raise
         if args.replay:
             return replay(res, args.replay)
         level = getattr(mod, 'LEVEL', 'other')
